@@ -81,7 +81,7 @@ where CL03<CS>: Scheme<PubKey = CL03PublicKey, PrivKey = CL03SecretKey, Ciphersu
         par_for(&ns, |_, &n| {
             env.ctx.state(&[b"random_bits", &n.to_be_bytes()]);
             let mut seen = std::collections::HashSet::new();
-            for _ in 0..50 { let x = random_bits(n); env.ctx.step(); seen.insert(x.to_string());
+            for _ in 0..50 { let x = match mccore::guard_val(|| random_bits(n)) { O::Ok(x) => x, o => { env.ctx.violation("C18:random_bits:panic", &format!("random_bits({}) panicked: {}", n, o.describe()), env.case("random-helpers", json!({"n": n}))); break; } }; env.ctx.step(); seen.insert(x.to_string());
                 if x.significant_bits() != n { env.ctx.violation("C18:random_bits:length", &format!("random_bits({}) returned a {}-bit value", n, x.significant_bits()), env.case("random-helpers", json!({"n": n}))); } }
             if n >= 16 && seen.len() < 45 { env.ctx.violation("C18:random_bits:repeats", &format!("random_bits({}) produced only {} distinct values in 50 draws", n, seen.len()), env.case("random-helpers", json!({"n": n}))); }
             env.ctx.class("random_bits"); env.ctx.trace();
@@ -89,7 +89,7 @@ where CL03<CS>: Scheme<PubKey = CL03PublicKey, PrivKey = CL03SecretKey, Ciphersu
         for a in -3i32..=3 { for w in 0..=3i32 {
             env.ctx.state(&[b"rand_int", &a.to_be_bytes(), &w.to_be_bytes()]);
             let mut hit = std::collections::BTreeSet::new();
-            for _ in 0..200 { let x = rand_int(Integer::from(a), Integer::from(a + w)); env.ctx.step(); if x < a || x > a + w { env.ctx.violation("C18:rand_int:range", &format!("rand_int({}, {}) returned {}", a, a + w, x), env.case("random-helpers", json!({"a": a, "b": a + w}))); } hit.insert(x.to_i32().unwrap_or(i32::MAX)); }
+            for _ in 0..200 { let x = match mccore::guard_val(|| rand_int(Integer::from(a), Integer::from(a + w))) { O::Ok(x) => x, o => { env.ctx.violation("C18:rand_int:panic", &format!("rand_int({}, {}) panicked: {}", a, a + w, o.describe()), env.case("random-helpers", json!({"a": a, "b": a + w}))); break; } }; env.ctx.step(); if x < a || x > a + w { env.ctx.violation("C18:rand_int:range", &format!("rand_int({}, {}) returned {}", a, a + w, x), env.case("random-helpers", json!({"a": a, "b": a + w}))); } hit.insert(x.to_i32().unwrap_or(i32::MAX)); }
             if hit.len() != (w + 1) as usize { env.ctx.violation("C18:rand_int:coverage", &format!("rand_int({}, {}) hit only {:?} in 200 draws", a, a + w, hit), env.case("random-helpers", json!({"a": a, "b": a + w}))); }
             env.ctx.class("rand_int"); env.ctx.trace();
         } }
